@@ -419,41 +419,45 @@ def mkResult (w : Wire) (o : Outcome) (closed : Bool) (nt : Bytes) (c : Conn) : 
   { outcome := o, consumed := w.bytes.length - c.rest.length, closed := closed, notified := nt,
     rest := c.rest, calls := c.log }
 
+/-- end of `_read_body_by_length` / `_read_body_until_close` and of `read_body`: flush the
+decoder, decide whether the connection is closed -/
+def finishBody {D} (dc : Decoder D) (w : Wire) (st : Status) (f : Fields) (sc : Bool) (r : Res D) : Result :=
+  match r with
+  | .exc e a c' => mkResult w (.exc e) true a.notified c'
+  | .stall a c' => mkResult w .stalled false a.notified c'
+  | .ok a c' ovr =>
+    match a.flush dc with
+    | .error e => mkResult w (.exc e) true a.notified c'
+    | .ok a' => mkResult w (.ok st f a'.body) (ovr || sc) a'.notified c'
+
+/-- `_read_body_by_chunk` after the chunk loop: the trailer fields join the header fields -/
+def finishChunked {D} (w : Wire) (st : Status) (f : Fields) (sc : Bool) (r : Chunks D) : Result :=
+  match r with
+  | .exc e a c' => mkResult w (.exc e) true a.notified c'
+  | .stall a c' => mkResult w .stalled false a.notified c'
+  | .ok a t c' =>
+    match parseFields true f t with
+    | none => mkResult w (.exc .ValueError) true a.notified c'
+    | some f' => mkResult w (.ok st f' a.body) sc a.notified c'
+
+/-- the framing strategy `read_body` uses -/
+def bodyStrategy (cfg : StreamCfg) (f : Fields) : Strategy :=
+  match readStrategy f with
+  | .length => if cfg.ignoreLength then Strategy.close else .length
+  | s => s
+
 /-- `Stream.read_body` after the no-body test -/
 def readBody {D} (dc : Decoder D) (cfg : StreamCfg) (req : ReqInfo) (fuel : Nat)
     (st : Status) (f : Fields) (c : Conn) (nt : Bytes) (w : Wire) : Result :=
   let a0 : Acc D := { notified := nt, body := [], dec := (decKind f).map dc.init }
-  let strat := match readStrategy f with
-    | .length => if cfg.ignoreLength then Strategy.close else .length
-    | s => s
   let sc := !cfg.keepAlive || shouldClose req.version (f.get? sConnection)
-  let finish (r : Res D) (f' : Fields) (flushIt : Bool) : Result :=
-    match r with
-    | .exc e a c' => mkResult w (.exc e) true a.notified c'
-    | .stall a c' => mkResult w .stalled false a.notified c'
-    | .ok a c' ovr =>
-      if flushIt then
-        match a.flush dc with
-        | .error e => mkResult w (.exc e) true a.notified c'
-        | .ok a' => mkResult w (.ok st f' a'.body) (ovr || sc) a'.notified c'
-      else mkResult w (.ok st f' a.body) (ovr || sc) a.notified c'
-  match strat with
-  | .chunked =>
-    match chunkedLoop dc fuel fuel c a0 with
-    | .exc e a c' => mkResult w (.exc e) true a.notified c'
-    | .stall a c' => mkResult w .stalled false a.notified c'
-    | .ok a t c' =>
-      match parseFields true f (t) with
-      | none => mkResult w (.exc .ValueError) true a.notified c'
-      | some f' => mkResult w (.ok st f' a.body) sc a.notified c'
+  match bodyStrategy cfg f with
+  | .chunked => finishChunked w st f sc (chunkedLoop dc fuel fuel c a0)
   | .length =>
     match contentLength? ((f.get? sContentLength).getD []) with
-    | none => finish (closeLoop dc fuel c a0) f true
-    | some n =>
-      match lengthLoop dc fuel n c a0 with
-      | .ok a c' ovr => finish (.ok a c' ovr) f true
-      | r => finish r f false
-  | .close => finish (closeLoop dc fuel c a0) f true
+    | none => finishBody dc w st f sc (closeLoop dc fuel c a0)
+    | some n => finishBody dc w st f sc (lengthLoop dc fuel n c a0)
+  | .close => finishBody dc w st f sc (closeLoop dc fuel c a0)
 
 /-- One exchange: `Stream.read_response` then `Stream.read_body`, reading the peer's
 bytes `w` under the schedule `σ`. -/
